@@ -23,6 +23,7 @@ def main() -> int:
     ap.add_argument("--no-evidence", action="store_true")
     ap.add_argument("--only", help="run only this workload")
     ap.add_argument("--wall-budget", type=float)
+    ap.add_argument("--one", type=int, help="debug: execute one run index of --only workload (default first) and print its trace")
     ap.add_argument("--selftest")
     ap.add_argument("rest", nargs="*")
     a = ap.parse_args()
@@ -39,6 +40,8 @@ def main() -> int:
     mod = importlib.import_module(f"props.{a.prop}")
     if a.replay:
         return runner.replay_file(mod, a.replay)
+    if a.one is not None:
+        return runner.run_one(mod, a.only, seed, a.one)
     return runner.run_check(
         mod, a.tier, seed, a.workers, runs_override=a.runs, want_digests=a.digests,
         write_evidence=not a.no_evidence, only=a.only, wall_budget=a.wall_budget,
